@@ -62,12 +62,14 @@ def _classes():
 
 
 def framing(ctx, lengths, compressed=False, encrypted=False, sentinel=False,
-            max_reads=400, whole=False):
+            max_reads=400, whole=False, zlen=False):
+    """zlen: the payloads are concrete (zero bytes) and the LENGTH of every
+    compressed body is an input instead (E-zlib with choose_length)"""
     import minecraft.networking.connection as cn
     import minecraft.networking.packets.packet as pk
     import minecraft.networking.encryption as enc
     Known, Unknown = _classes()
-    zl = netenv.ZlibStub()
+    zl = netenv.ZlibStub(choose_length=zlen)
     sel = netenv.SelectStub()
     conn = netenv.bare_connection(PV)
     raw_sock = conn.socket
@@ -96,7 +98,7 @@ def framing(ctx, lengths, compressed=False, encrypted=False, sentinel=False,
         sent = []
         plain_frames = []
         for j, L in enumerate(lengths):
-            data = ctx.bytes('p%d' % j, L)
+            data = ctx.bytes('p%d' % j, L) if not zlen else bytes(L)
             cls = Known if j % 2 == 0 else Unknown
             p = cls(conn.context, data=data)
             before = len(raw_sock.items())
@@ -233,6 +235,18 @@ def instances(tier, seed):
                     'framing', {'lengths': [n], 'compressed': comp,
                                 'whole': True}, W=64, budget_s=3000,
                     max_decisions=400000, witness_every=1))
+    # the compressed LENGTH as an input (below, at and above the inflated
+    # length), concrete payloads, reads unsegmented
+    zsets = [(40,), (130,), (24, 30)] if tier != 'thorough' else \
+        [(40,), (130,), (24, 30), (300,), (20, 0, 20), (127,)]
+    for lengths in zsets:
+        out.append(Instance(
+            'framing:%s:zlen' % '+'.join(map(str, lengths)), 'framing',
+            {'lengths': list(lengths), 'compressed': True, 'whole': True,
+             'zlen': True}, W=64, budget_s=1800, max_decisions=400000,
+            witness_every=3,
+            note='E-zlib choose_length: every compressed length real '
+                 'deflate can produce for the payload'))
     out.append(Instance('sentinel:framing', 'framing',
                         {'lengths': [3], 'compressed': True,
                          'sentinel': True}, W=64, expect='violation',
